@@ -187,6 +187,16 @@ func configure(g *gen) {
 	// context.go
 	add(FnSpec{Recv: "Context", Func: "Abort", Lean: "Ctx.Abort"})
 	add(FnSpec{Recv: "Context", Func: "IsAborted", Lean: "Ctx.IsAborted"})
+	// AbortWithStatus: `c.Resp` is taken to be the context's own writer (`respOwn`; a handler that replaced c.Resp is
+	// outside this translation); net/http.Error is its documented sequence on that writer: WriteHeader(code), then
+	// one Write of msg + "\n" (the header map is not modelled here); the underlying writer's answer is an input
+	add(FnSpec{Recv: "Context", Func: "AbortWithStatus", Lean: "Ctx.AbortWithStatus", Extra: []string{"(ext : Int × Bool)"},
+		Types: map[string]T{"[]string": tStrList},
+		Exts: []Ext{
+			{Callee: "$.Resp.WriteHeader", Stmts: []string{"$ := { $ with writer := Gen.RW.WriteHeader $.writer %1 }"}},
+			{Callee: "http.Error", Stmts: []string{"$ := { $ with writer := (Gen.RW.Write (Gen.RW.WriteHeader $.writer %3) (%2 ++ [0x0A]) ext).1 }"}},
+			{Callee: "$.Resp", Value: "()", T: T{"opaque", "Unit"}},
+		}, Mutates: true})
 	// Next: the handler call `c.handlers[c.index](c)` is a parameter (`call fuel i c` = run handler i on c, with
 	// `fuel` left for the Next() calls the handler makes; an index out of range is its panic, `none` = the
 	// handler ran out of fuel)
@@ -239,6 +249,21 @@ func configure(g *gen) {
 			{Callee: "_.SetHandlers", Stmts: []string{"hchain := %2", "ctx := { %1 with handlers := (%2).map (fun _ => ()) }"}},
 			{Callee: "_.Next", Stmts: []string{"let %t := env.next s %1 hchain", "s := %t.1", "ctx := %t.2.1", "if let some p := %t.2.2 then return " + hRet}},
 		}})
+	// dispatch.go: the two entry points around handleHTTPRequest; the context pool is an abstract state with
+	// Get (some pooled context or a new one) and Put
+	entryExts := []Ext{
+		{Callee: "$.ctxPool.Get().(*Context)", Stmts: []string{"let tget := env.poolGet s", "s := tget.1"}, Value: "tget.2", T: T{"struct", "Ctx γ"}},
+		{Callee: "$.ctxPool.Put", Stmts: []string{"s := env.poolPut s %1"}},
+		{Callee: "$.handleHTTPRequest", Stmts: []string{"let %t := env.handle s %1", "s := %t.1", "if let some p := %t.2.2 then return (s, some p)", "%1 := %t.2.1"}},
+	}
+	add(FnSpec{Recv: "Router", Func: "ServeHTTP", Lean: "Router.ServeHTTP",
+		Extra:    []string{"{σ : Type}", "(env : GoRt.PEnv σ (Ctx γ))", "(s0 : σ)"},
+		Prologue: []string{"let mut s := s0"}, RetExtra: []string{"s", "(none : Option Panic)"}, RetExtraT: []string{"σ", "Option Panic"},
+		Types: map[string]T{"*http.Request": {"opaque", "Option Nat"}}, Exts: entryExts})
+	add(FnSpec{Recv: "Router", Func: "HandleContext", Lean: "Router.HandleContext",
+		Extra:    []string{"{σ : Type}", "(env : GoRt.PEnv σ (Ctx γ))", "(s0 : σ)"},
+		Prologue: []string{"let mut s := s0"}, RetExtra: []string{"s", "(none : Option Panic)"}, RetExtraT: []string{"σ", "Option Panic"},
+		MutParams: []string{"c"}, Exts: entryExts})
 	// pkg/handlers: the two gates.  The context / request is an event log resp. a small record; what
 	// `Request.BasicAuth()` parsed out of the Authorization header is an input.
 	gctx := T{"opaque", "List GoRt.GEv"}
